@@ -172,6 +172,8 @@ func c28Check(c *mc.Check, w *c28wWorld, o *c28wOut) bool {
 func TestVerifC28(t *testing.T) {
 	c := mc.Begin(t, "C28", "model_checking")
 	defer c.End()
+	e1s, e1p := c29E1(c, "C28")
+	defer func() { c.Set("e1_schedules", e1s); c.Set("e1_choice_points", e1p) }()
 	c.Assume("history half only: one goroutine, operations are atomic calls of the real entry points; the interleaving (E1) half is not covered here")
 	c.Assume("'live' is read as: registered in HostMap.Indexes under its own local index; eviction by the per-address cap counts as a removal (the statement does not say which tunnel is evicted, so only its complete erasure is checked)")
 	c.Assume("index generator scripted through the vrand shim (first value = explorer choice, then counting upwards); peers' remote indexes fixed per address set (7/8/7/8) so that shadowing occurs")
